@@ -193,6 +193,10 @@ func (p *Pool[K, V]) Put(key K, val V) {
 		}
 	}
 
+	// evicting for total capacity may have emptied and unregistered the list
+	// for this key; it is about to be used again, so make sure it is registered.
+	p.entries[key] = local
+
 	ent := &entry[K, V]{key: key, val: val}
 	local.appendEntry(ent, (*entry[K, V]).localList)
 	p.order.appendEntry(ent, (*entry[K, V]).globalList)
